@@ -399,3 +399,12 @@ Lemma promql_querier_value_independent re cluster db h ms ms' p :
     skeleton (lex (flat p')) = skeleton (lex (flat p)) /\
     lex (flat p') = etoks QN p' /\ List.length (rvalues p') = List.length (rvalues p).
 Proof. intros H. exact (erased_equal_same_structure _ _ cluster p (Es_querier_transpile re cluster db h ms ms' H)). Qed.
+
+(* the LogQL stream selector planner (StreamSelectPlanner: the fingerprint sub-select of every LogQL request) *)
+Lemma logql_stream_select_value_independent c cluster ms ms' p :
+  Forall2 matcher_variant ms ms' -> pieces (stream_select c ms) cluster = Some p -> pok QN p = true ->
+  exists p', pieces (stream_select c ms') cluster = Some p' /\ pok QN p' = true /\ shape p' = shape p /\
+    render (stream_select c ms) cluster = Some (flat p) /\ render (stream_select c ms') cluster = Some (flat p') /\
+    skeleton (lex (flat p')) = skeleton (lex (flat p)) /\
+    lex (flat p') = etoks QN p' /\ List.length (rvalues p') = List.length (rvalues p).
+Proof. intros H. exact (erased_equal_same_structure _ _ cluster p (Es_stream_select c ms ms' H)). Qed.
